@@ -18,6 +18,7 @@ var selftestPrograms = [][2]string{
 	{"github.com/buzzfeed/sso/internal/proxy", "VerifSelftestProxy"},
 	{"github.com/buzzfeed/sso/internal/auth", "VerifSelftestAuth"},
 	{"github.com/buzzfeed/sso/internal/auth/circuit", "VerifSelftestBreaker"},
+	{"github.com/buzzfeed/sso/internal/proxy", "VerifSelftestMergo"},
 }
 
 func runSelftest(args []string) int {
